@@ -42,7 +42,7 @@ inductive Sub : Expr F → Expr F → Prop where
 
 /-- a located occurrence with what the simulation needs to know about it -/
 def Occ (P : Prog F) (cur : Nat) (x : Expr F) : Prop :=
-  ∃ root pc, Located P root cur pc x ∧ wfC x = true ∧ (root = cur ∨ enFree x = true) ∧ pc + len x < P.instrs.size
+  ∃ root pc, Located P root cur pc x ∧ wfC x = true ∧ pc + len x < P.instrs.size
 
 theorem locList_mem {P : Prog F} {root cur : Nat} {a : Expr F} : ∀ (items : List (Expr F)) (pc : Nat),
     LocatedList P root cur pc items → a ∈ items → ∃ pc', Located P root cur pc' a ∧ pc' + len a ≤ pc + lenList items
@@ -87,14 +87,14 @@ theorem locArms_mem {P : Prog F} {root cur join : Nat} {b : Bool} {c t : Expr F}
     · exact locArms_mem rest _ hr h
 
 theorem wfCArms_mem {b : Bool} {c t : Expr F} : ∀ (arms : List (Bool × Expr F × Expr F)), wfCArms arms = true →
-    (b, c, t) ∈ arms → wfC c = true ∧ wfC t = true ∧ enFree t = true
+    (b, c, t) ∈ arms → wfC c = true ∧ wfC t = true
   | [], _, h => by cases h
   | (b', c', t') :: rest, hw, h => by
     simp only [wfCArms, Bool.and_eq_true] at hw
     rcases List.mem_cons.1 h with heq | h
     · simp only [Prod.mk.injEq] at heq
       obtain ⟨rfl, rfl, rfl⟩ := heq
-      exact ⟨hw.1.1.1, hw.1.1.2, hw.1.2⟩
+      exact ⟨hw.1.1, hw.1.2⟩
     · exact wfCArms_mem rest hw.2 h
 
 theorem enFreeArms_mem {b : Bool} {c t : Expr F} : ∀ (arms : List (Bool × Expr F × Expr F)), enFreeArms arms = true →
@@ -113,186 +113,184 @@ theorem Located_sub {P : Prog F} {cur : Nat} {x e : Expr F} (h : Sub x e) : Occ 
   induction h with
   | refl => exact id
   | unary op _ ih =>
-    rintro ⟨root, pc, hl, hw, hen, hlt⟩
+    rintro ⟨root, pc, hl, hw, hlt⟩
     simp only [Located] at hl
     simp only [wfC, Bool.and_eq_true] at hw
-    exact ih ⟨root, pc, hl.1, hw.2, hen.imp id (fun h => by simpa [enFree] using h), lt_size_of_get hl.2⟩
+    exact ih ⟨root, pc, hl.1, hw.2, lt_size_of_get hl.2⟩
   | binaryL op r _ ih =>
-    rintro ⟨root, pc, hl, hw, hen, hlt⟩
+    rintro ⟨root, pc, hl, hw, hlt⟩
     simp only [Located] at hl
     simp only [wfC, Bool.and_eq_true] at hw
     have := lt_size_of_get hl.2.2
     have := len_pos r
-    exact ih ⟨root, pc, hl.1, hw.1.2, hen.imp id (fun h => by simp only [enFree, Bool.and_eq_true] at h; exact h.1), by omega⟩
+    exact ih ⟨root, pc, hl.1, hw.1.2, by omega⟩
   | binaryR op l _ ih =>
-    rintro ⟨root, pc, hl, hw, hen, hlt⟩
+    rintro ⟨root, pc, hl, hw, hlt⟩
     simp only [Located] at hl
     simp only [wfC, Bool.and_eq_true] at hw
-    exact ih ⟨root, _, hl.2.1, hw.2, hen.imp id (fun h => by simp only [enFree, Bool.and_eq_true] at h; exact h.2),
+    exact ih ⟨root, _, hl.2.1, hw.2,
       lt_size_of_get hl.2.2⟩
   | pairL r _ ih =>
-    rintro ⟨root, pc, hl, hw, hen, hlt⟩
+    rintro ⟨root, pc, hl, hw, hlt⟩
     simp only [Located] at hl
     simp only [wfC, Bool.and_eq_true] at hw
-    exact ih ⟨root, _, hl.2.1, hw.1, hen.imp id (fun h => by simp only [enFree, Bool.and_eq_true] at h; exact h.1),
+    exact ih ⟨root, _, hl.2.1, hw.1,
       lt_size_of_get hl.2.2⟩
   | pairR l _ ih =>
-    rintro ⟨root, pc, hl, hw, hen, hlt⟩
+    rintro ⟨root, pc, hl, hw, hlt⟩
     simp only [Located] at hl
     simp only [wfC, Bool.and_eq_true] at hw
     have := lt_size_of_get hl.2.2
     have := len_pos l
-    exact ih ⟨root, pc, hl.1, hw.2, hen.imp id (fun h => by simp only [enFree, Bool.and_eq_true] at h; exact h.2), by omega⟩
+    exact ih ⟨root, pc, hl.1, hw.2, by omega⟩
   | applyToX f _ ih =>
-    rintro ⟨root, pc, hl, hw, hen, hlt⟩
+    rintro ⟨root, pc, hl, hw, hlt⟩
     simp only [Located] at hl
     simp only [wfC, Bool.and_eq_true] at hw
-    exact ih ⟨root, _, hl.2.1, hw.1, hen.imp id (fun h => by simp only [enFree, Bool.and_eq_true] at h; exact h.1),
+    exact ih ⟨root, _, hl.2.1, hw.1,
       lt_size_of_get hl.2.2⟩
   | @applyToF f a _ ih =>
-    rintro ⟨root, pc, hl, hw, hen, hlt⟩
+    rintro ⟨root, pc, hl, hw, hlt⟩
     simp only [Located] at hl
     simp only [wfC, Bool.and_eq_true] at hw
     have := lt_size_of_get hl.2.2
     have := len_pos a
-    exact ih ⟨root, pc, hl.1, hw.2, hen.imp id (fun h => by simp only [enFree, Bool.and_eq_true] at h; exact h.2), by omega⟩
+    exact ih ⟨root, pc, hl.1, hw.2, by omega⟩
   | @list a items hmem _ ih =>
-    rintro ⟨root, pc, hl, hw, hen, hlt⟩
+    rintro ⟨root, pc, hl, hw, hlt⟩
     simp only [Located] at hl
     simp only [wfC] at hw
     obtain ⟨pc', h1, h2⟩ := locList_mem items pc hl.1 hmem
     have := lt_size_of_get hl.2
-    exact ih ⟨root, pc', h1, wfCList_mem items hw hmem,
-      hen.imp id (fun h => by simp only [enFree] at h; exact enFreeList_mem items h hmem), by omega⟩
+    exact ih ⟨root, pc', h1, wfCList_mem items hw hmem, by omega⟩
   | condC b t _ ih =>
-    rintro ⟨root, pc, hl, hw, hen, hlt⟩
+    rintro ⟨root, pc, hl, hw, hlt⟩
     simp only [Located] at hl
     simp only [wfC, Bool.and_eq_true] at hw
     obtain ⟨hlc, j, join, tb, hi, _⟩ := hl
-    exact ih ⟨root, pc, hlc, hw.1.1, hen.imp id (fun h => by simp only [enFree, Bool.and_eq_true] at h; exact h.1),
+    exact ih ⟨root, pc, hlc, hw.1,
       lt_size_of_get hi⟩
   | @condT t b c _ ih =>
-    rintro ⟨root, pc, hl, hw, hen, hlt⟩
+    rintro ⟨root, pc, hl, hw, hlt⟩
     simp only [Located] at hl
     simp only [wfC, Bool.and_eq_true] at hw
     obtain ⟨_, j, join, tb, _, _, _, _, _, hlt', hterm⟩ := hl
     rw [termsAfter_jump] at hterm
     simp only [InstrsAt, and_true] at hterm
-    exact ih ⟨j, tb, hlt', hw.1.2, .inr hw.2, lt_size_of_get hterm⟩
+    exact ih ⟨j, tb, hlt', hw.2, lt_size_of_get hterm⟩
   | @chainC c t b arms final hmem _ ih =>
-    rintro ⟨root, pc, hl, hw, hen, hlt⟩
+    rintro ⟨root, pc, hl, hw, hlt⟩
     rw [Located_chain] at hl
     rw [wfC_chain] at hw
     simp only [Bool.and_eq_true] at hw
     obtain ⟨join, hla, _, _⟩ := hl
     obtain ⟨⟨pc', h1, h2⟩, _⟩ := locArms_mem arms pc hla hmem
-    exact ih ⟨root, pc', h1, (wfCArms_mem arms hw.1 hmem).1,
-      hen.imp id (fun h => by rw [enFree_chain] at h; simp only [Bool.and_eq_true] at h; exact enFreeArms_mem arms h.1 hmem), h2⟩
+    exact ih ⟨root, pc', h1, (wfCArms_mem arms hw.1 hmem).1, h2⟩
   | @chainT c t b arms final hmem _ ih =>
-    rintro ⟨root, pc, hl, hw, hen, hlt⟩
+    rintro ⟨root, pc, hl, hw, hlt⟩
     rw [Located_chain] at hl
     rw [wfC_chain] at hw
     simp only [Bool.and_eq_true] at hw
     obtain ⟨join, hla, _, _⟩ := hl
     obtain ⟨_, ⟨j, tb, h1, h2⟩⟩ := locArms_mem arms pc hla hmem
-    obtain ⟨_, w2, w3⟩ := wfCArms_mem arms hw.1 hmem
-    exact ih ⟨j, tb, h1, w2, .inr w3, h2⟩
+    obtain ⟨_, w2⟩ := wfCArms_mem arms hw.1 hmem
+    exact ih ⟨j, tb, h1, w2, h2⟩
   | @chainF fe arms _ ih =>
-    rintro ⟨root, pc, hl, hw, hen, hlt⟩
+    rintro ⟨root, pc, hl, hw, hlt⟩
     rw [Located_chain] at hl
     rw [wfC_chain] at hw
     simp only [Bool.and_eq_true] at hw
     obtain ⟨join, _, hlf, _⟩ := hl
     have hend : pc + len (.chain arms (some fe)) = pc + lenArms arms + len fe := by rw [len_chain]; simp only; omega
-    exact ih ⟨root, _, hlf, hw.2, hen.imp id (fun h => by rw [enFree_chain] at h; simp only [Bool.and_eq_true] at h; exact h.2),
+    exact ih ⟨root, _, hlf, hw.2,
       by omega⟩
   | andL r _ ih =>
-    rintro ⟨root, pc, hl, hw, hen, hlt⟩
+    rintro ⟨root, pc, hl, hw, hlt⟩
     simp only [Located] at hl
     simp only [wfC, Bool.and_eq_true] at hw
     obtain ⟨hll, j, join, tb, hi, _⟩ := hl
-    exact ih ⟨root, pc, hll, hw.1.1, hen.imp id (fun h => by simp only [enFree, Bool.and_eq_true] at h; exact h.1),
+    exact ih ⟨root, pc, hll, hw.1,
       lt_size_of_get hi⟩
   | @andR r l _ ih =>
-    rintro ⟨root, pc, hl, hw, hen, hlt⟩
+    rintro ⟨root, pc, hl, hw, hlt⟩
     simp only [Located] at hl
     simp only [wfC, Bool.and_eq_true] at hw
     obtain ⟨_, j, join, tb, _, _, _, _, hlr, hterm⟩ := hl
     rw [termsAfter_tis] at hterm
     simp only [InstrsAt, and_true] at hterm
-    exact ih ⟨j, tb, hlr, hw.1.2, .inr hw.2, lt_size_of_get hterm.1⟩
+    exact ih ⟨j, tb, hlr, hw.2, lt_size_of_get hterm.1⟩
   | orL r _ ih =>
-    rintro ⟨root, pc, hl, hw, hen, hlt⟩
+    rintro ⟨root, pc, hl, hw, hlt⟩
     simp only [Located] at hl
     simp only [wfC, Bool.and_eq_true] at hw
     obtain ⟨hll, j, join, tb, hi, _⟩ := hl
-    exact ih ⟨root, pc, hll, hw.1.1, hen.imp id (fun h => by simp only [enFree, Bool.and_eq_true] at h; exact h.1),
+    exact ih ⟨root, pc, hll, hw.1,
       lt_size_of_get hi⟩
   | @orR r l _ ih =>
-    rintro ⟨root, pc, hl, hw, hen, hlt⟩
+    rintro ⟨root, pc, hl, hw, hlt⟩
     simp only [Located] at hl
     simp only [wfC, Bool.and_eq_true] at hw
     obtain ⟨_, j, join, tb, _, _, _, _, hlr, hterm⟩ := hl
     rw [termsAfter_tis] at hterm
     simp only [InstrsAt, and_true] at hterm
-    exact ih ⟨j, tb, hlr, hw.1.2, .inr hw.2, lt_size_of_get hterm.1⟩
+    exact ih ⟨j, tb, hlr, hw.2, lt_size_of_get hterm.1⟩
   | seqL b _ ih =>
-    rintro ⟨root, pc, hl, hw, hen, hlt⟩
+    rintro ⟨root, pc, hl, hw, hlt⟩
     simp only [Located] at hl
     simp only [wfC, Bool.and_eq_true] at hw
-    exact ih ⟨root, pc, hl.1, hw.1, hen.imp id (fun h => by simp only [enFree, Bool.and_eq_true] at h; exact h.1),
+    exact ih ⟨root, pc, hl.1, hw.1,
       lt_size_of_get hl.2.1⟩
   | @seqR b a _ ih =>
-    rintro ⟨root, pc, hl, hw, hen, hlt⟩
+    rintro ⟨root, pc, hl, hw, hlt⟩
     simp only [Located] at hl
     simp only [wfC, Bool.and_eq_true] at hw
     have hend : pc + len (.seq a b) = pc + len a + 1 + len b := by simp only [len]; omega
-    exact ih ⟨root, _, hl.2.2, hw.2, hen.imp id (fun h => by simp only [enFree, Bool.and_eq_true] at h; exact h.2), by omega⟩
+    exact ih ⟨root, _, hl.2.2, hw.2, by omega⟩
   | sideL b _ ih =>
-    rintro ⟨root, pc, hl, hw, hen, hlt⟩
+    rintro ⟨root, pc, hl, hw, hlt⟩
     simp only [Located] at hl
     simp only [wfC, Bool.and_eq_true] at hw
-    exact ih ⟨root, pc, hl.1, hw.1.1, hen.imp id (fun h => by simp only [enFree, Bool.and_eq_true] at h; exact h.1),
+    exact ih ⟨root, pc, hl.1, hw.1.1,
       lt_size_of_get hl.2.1⟩
   | sideR a _ ih =>
-    rintro ⟨root, pc, hl, hw, hen, hlt⟩
+    rintro ⟨root, pc, hl, hw, hlt⟩
     simp only [Located] at hl
     simp only [wfC, Bool.and_eq_true] at hw
-    exact ih ⟨root, _, hl.2.2.1, hw.1.2, hen.imp id (fun h => by simp only [enFree, Bool.and_eq_true] at h; exact h.2),
+    exact ih ⟨root, _, hl.2.2.1, hw.1.2,
       lt_size_of_get hl.2.2.2⟩
   | reapply _ ih =>
-    rintro ⟨root, pc, hl, hw, hen, hlt⟩
+    rintro ⟨root, pc, hl, hw, hlt⟩
     simp only [Located] at hl
     simp only [wfC] at hw
-    exact ih ⟨root, pc, hl.1, hw, hen.imp id (fun h => by simpa [enFree] using h), lt_size_of_get hl.2.1⟩
+    exact ih ⟨root, pc, hl.1, hw, lt_size_of_get hl.2.1⟩
   | prefixApply sym _ ih =>
-    rintro ⟨root, pc, hl, hw, hen, hlt⟩
+    rintro ⟨root, pc, hl, hw, hlt⟩
     simp only [Located] at hl
     simp only [wfC] at hw
-    exact ih ⟨root, _, hl.2.1, hw, hen.imp id (fun h => by simpa [enFree] using h), lt_size_of_get hl.2.2⟩
+    exact ih ⟨root, _, hl.2.1, hw, lt_size_of_get hl.2.2⟩
   | suffixApply sym _ ih =>
-    rintro ⟨root, pc, hl, hw, hen, hlt⟩
+    rintro ⟨root, pc, hl, hw, hlt⟩
     simp only [Located] at hl
     simp only [wfC] at hw
-    exact ih ⟨root, _, hl.2.1, hw, hen.imp id (fun h => by simpa [enFree] using h), lt_size_of_get hl.2.2⟩
+    exact ih ⟨root, _, hl.2.1, hw, lt_size_of_get hl.2.2⟩
   | @infixL a sym b _ ih =>
-    rintro ⟨root, pc, hl, hw, hen, hlt⟩
+    rintro ⟨root, pc, hl, hw, hlt⟩
     simp only [Located] at hl
     simp only [wfC, Bool.and_eq_true] at hw
     have := lt_size_of_get hl.2.2.2.1
     have := len_pos b
-    exact ih ⟨root, _, hl.2.1, hw.1, hen.imp id (fun h => by simp only [enFree, Bool.and_eq_true] at h; exact h.1), by omega⟩
+    exact ih ⟨root, _, hl.2.1, hw.1, by omega⟩
   | infixR sym a _ ih =>
-    rintro ⟨root, pc, hl, hw, hen, hlt⟩
+    rintro ⟨root, pc, hl, hw, hlt⟩
     simp only [Located] at hl
     simp only [wfC, Bool.and_eq_true] at hw
-    exact ih ⟨root, _, hl.2.2.1, hw.2, hen.imp id (fun h => by simp only [enFree, Bool.and_eq_true] at h; exact h.2),
+    exact ih ⟨root, _, hl.2.2.1, hw.2,
       lt_size_of_get hl.2.2.2.1⟩
 
 /-- a body of the table is an occurrence (of itself), located at its jump entry -/
 theorem Occ.ofEnv {P : Prog F} {bodies : List (Nat × Expr F)} (env : Env P bodies) {id : Nat} {b : Expr F}
     (hb : lookupBody bodies id = some b) : Occ P id b := by
   obtain ⟨t, _, hloc, hwf, hend⟩ := env.body id b hb
-  exact ⟨id, t, hloc, hwf, .inl rfl, lt_size_of_get hend⟩
+  exact ⟨id, t, hloc, hwf, lt_size_of_get hend⟩
 
 end Garnish.Abs
